@@ -73,22 +73,32 @@ macro_rules! impl_parse {
                 let mut $out = Self::default();
                 loop {
                     let key: syn::Ident = $input.call(syn::ext::IdentExt::parse_any)?;
-                    match &*key.to_string() {
-                        $($k => $e,)*
-                        #[allow(unreachable_patterns)]
-                        x => {
-                            if cfg!(not(feature = "no-serde-warnings")) {
-                                let tokens = crate::attr::skip_until_next_comma($input);
+                    let key = key.to_string();
 
-                                crate::utils::warning::print_warning(
-                                    "failed to parse serde attribute",
-                                    format!("{x} {tokens}"),
-                                    "ts-rs failed to parse this attribute. It will be ignored.",
-                                )
-                                .unwrap();
-                            } else {
-                                crate::attr::skip_until_next_comma($input);
-                            }
+                    // Neither a key ts-rs does not know, nor a value it cannot parse (serde
+                    // accepts more forms than ts-rs does, e.g. `rename(serialize = "..")`) may
+                    // take the other attributes of the same list down with it.
+                    let parsed: syn::Result<bool> = (|| {
+                        match &*key {
+                            $($k => $e,)*
+                            #[allow(unreachable_patterns)]
+                            _ => return Ok(false),
+                        }
+                        Ok(true)
+                    })();
+
+                    if !matches!(parsed, Ok(true)) {
+                        if cfg!(not(feature = "no-serde-warnings")) {
+                            let tokens = crate::attr::skip_until_next_comma($input);
+
+                            crate::utils::warning::print_warning(
+                                "failed to parse serde attribute",
+                                format!("{key} {tokens}"),
+                                "ts-rs failed to parse this attribute. It will be ignored.",
+                            )
+                            .unwrap();
+                        } else {
+                            crate::attr::skip_until_next_comma($input);
                         }
                     }
 
